@@ -42,7 +42,7 @@ static int               verif_srm_overflow = 0;
 static const char *      verif_srm_path  = NULL;
 static volatile uint32_t verif_srm_tid_next = 0;
 static __thread uint32_t verif_srm_tid   = 0;
-EB_API void svt_verif_srm_trace_flush(void) {
+__attribute__((visibility("default"))) void svt_verif_srm_trace_flush(void) {
     if (verif_srm_state != 2 || !verif_srm_path)
         return;
     pthread_mutex_lock(&verif_srm_mx);
